@@ -24,14 +24,31 @@ pub proof fn lemma_cpl_unique(a: Seq<u8>, b: Seq<u8>, p: int)
 /// state of a completion: what has been merged so far (None: nothing merged) and whether more input is needed
 pub struct AcState { pub auto: Option<Seq<u8>>, pub partial: bool }
 
-/// one merge of a candidate continuation into a completion buffer of `room` bytes (as implemented)
+/// p is the length of the longest prefix of a that ends on a character boundary and fits into `room` bytes
+pub open spec fn fit_pred(a: Seq<u8>, room: int, p: int) -> bool {
+    &&& 0 <= p <= a.len() && p <= room
+    &&& is_char_boundary(a, p)
+    &&& forall|q: int| p < q <= a.len() && q <= room ==> !#[trigger] is_char_boundary(a, q)
+}
+pub open spec fn fit_len(a: Seq<u8>, room: int) -> int { choose|p: int| fit_pred(a, room, p) }
+pub proof fn lemma_fit_unique(a: Seq<u8>, room: int, p: int)
+    requires fit_pred(a, room, p)
+    ensures fit_len(a, room) == p
+{
+    let c = fit_len(a, room);
+    assert(fit_pred(a, room, c));
+    if c < p { assert(is_char_boundary(a, p)); }
+    if p < c { assert(is_char_boundary(a, c)); }
+}
+
+/// one merge of a candidate continuation into a completion buffer of `room` bytes (as implemented): the first
+/// candidate is kept as far as it fits, every further one cuts what is there down to the common prefix
 pub open spec fn merge_step(room: int, s: AcState, cand: Seq<u8>) -> AcState {
     if cand.len() == 0 || room == 0 {
         AcState { auto: Some(Seq::empty()), partial: s.partial || s.auto is Some || (room == 0 && cand.len() > 0) }
     } else {
-        let len = match s.auto { Some(cur) => cpl(cand, cur), None => cand.len() as int };
-        if len > room { s }
-        else { AcState { auto: Some(cand.subrange(0, len)), partial: s.partial || len < cand.len() || s.auto is Some } }
+        let len = match s.auto { Some(cur) => cpl(cand, cur), None => fit_len(cand, room) };
+        AcState { auto: Some(cand.subrange(0, len)), partial: s.partial || len < cand.len() || s.auto is Some }
     }
 }
 } // verus!
@@ -81,5 +98,106 @@ pub open spec fn ac_apply(line: Seq<u8>, req_len: int, st: AcState, cap: int) ->
         },
         None => line,
     }
+}
+} // verus!
+verus! {
+pub open spec fn is_prefix_of(a: Seq<u8>, c: Seq<u8>) -> bool { a.len() <= c.len() && c.subrange(0, a.len() as int) == a }
+
+/// Meaning of a completion state w.r.t. the candidates merged so far (C11): every merged candidate is accounted
+/// for, the merged continuation is common to every candidate, and the completion is only called complete
+/// (not partial, which lets the editor append a space) when exactly one candidate was merged and it is there in full.
+pub open spec fn ac_sem(st: AcState, cands: Seq<Seq<u8>>) -> bool {
+    &&& (st.auto is None) == (cands.len() == 0)
+    &&& st.auto matches Some(a) ==> forall|i: int| 0 <= i < cands.len() ==> is_prefix_of(a, #[trigger] cands[i])
+    &&& !st.partial ==> (cands.len() == 0 && st.auto is None) || (cands.len() == 1 && st.auto == Some(cands[0]))
+}
+
+/// ... and conversely (as long as nobody called mark_partial): a single candidate that is there in full is complete
+pub open spec fn ac_exact(st: AcState, cands: Seq<Seq<u8>>) -> bool {
+    &&& cands.len() == 0 ==> !st.partial
+    &&& cands.len() == 1 && st.auto == Some(cands[0]) ==> !st.partial
+}
+
+/// longest common continuation of a non-empty candidate list: fold of cpl
+pub open spec fn lcc(cands: Seq<Seq<u8>>) -> Seq<u8>
+    decreases cands.len()
+{
+    if cands.len() == 0 { Seq::empty() }
+    else if cands.len() == 1 { cands[0] }
+    else { cands.last().subrange(0, cpl(cands.last(), lcc(cands.drop_last()))) }
+}
+} // verus!
+verus! {
+/// every candidate would fit into the free space
+pub open spec fn all_fit(cands: Seq<Seq<u8>>, room: int) -> bool {
+    forall|i: int| 0 <= i < cands.len() ==> (#[trigger] cands[i]).len() <= room
+}
+
+/// as long as every candidate fits, what is merged is exactly the longest common continuation of the candidates
+pub open spec fn ac_lcc(st: AcState, cands: Seq<Seq<u8>>, room: int) -> bool {
+    all_fit(cands, room) && room > 0 ==>
+        (if cands.len() == 0 { st.auto is None } else { st.auto == Some(lcc(cands)) })
+}
+
+/// the three together: what C11 says about a completion state given the names that matched
+pub open spec fn ac_inv(st: AcState, cands: Seq<Seq<u8>>, room: int) -> bool {
+    ac_sem(st, cands) && ac_exact(st, cands) && ac_lcc(st, cands, room)
+}
+
+/// continuations of the names that start with the word w, in order
+pub open spec fn conts(names: Seq<Seq<u8>>, w: Seq<u8>) -> Seq<Seq<u8>>
+    decreases names.len()
+{
+    if names.len() == 0 { Seq::empty() }
+    else {
+        let r = conts(names.drop_last(), w);
+        let n = names.last();
+        if is_prefix_of(w, n) { r.push(n.subrange(w.len() as int, n.len() as int)) } else { r }
+    }
+}
+
+pub proof fn lemma_conts_concat(a: Seq<Seq<u8>>, b: Seq<Seq<u8>>, w: Seq<u8>)
+    ensures conts(a + b, w) == conts(a, w) + conts(b, w)
+    decreases b.len()
+{
+    if b.len() == 0 {
+        assert(a + b =~= a);
+        assert(conts(a, w) + conts(b, w) =~= conts(a, w));
+    } else {
+        assert((a + b).drop_last() =~= a + b.drop_last());
+        assert((a + b).last() == b.last());
+        lemma_conts_concat(a, b.drop_last(), w);
+        let n = b.last();
+        if is_prefix_of(w, n) {
+            assert(conts(a, w) + conts(b.drop_last(), w).push(n.subrange(w.len() as int, n.len() as int))
+                =~= (conts(a, w) + conts(b.drop_last(), w)).push(n.subrange(w.len() as int, n.len() as int)));
+        }
+    }
+}
+
+pub proof fn lemma_conts_one(n: Seq<u8>, w: Seq<u8>)
+    ensures conts(seq![n], w) == (if is_prefix_of(w, n) { seq![n.subrange(w.len() as int, n.len() as int)] } else { Seq::<Seq<u8>>::empty() })
+{
+    let one = seq![n];
+    assert(one.drop_last() =~= Seq::<Seq<u8>>::empty());
+    assert(one.last() == n);
+    assert(conts(one.drop_last(), w) =~= Seq::<Seq<u8>>::empty());
+    if is_prefix_of(w, n) {
+        let c = n.subrange(w.len() as int, n.len() as int);
+        assert(Seq::<Seq<u8>>::empty().push(c) =~= seq![c]);
+    }
+}
+
+/// the names of an arbitrary `#[derive(Command)]` declaration: the derive template is verified for this
+/// uninterpreted list, i.e. for every list of command names
+pub uninterp spec fn derived_names() -> Seq<Seq<u8>>;
+
+/// stands for `&[#(#command_names),*]` in the derive template (rule T4): some slice of strings
+#[verifier::external_body]
+pub fn derived_command_names() -> (r: &'static [&'static str])
+    ensures r@.len() == derived_names().len(),
+        forall|i: int| 0 <= i < r@.len() ==> (#[trigger] r@[i]).spec_bytes() == derived_names()[i],
+{
+    unimplemented!()
 }
 } // verus!
